@@ -3,13 +3,15 @@ import PsModel.Model.C09
 import PsModel.Spec.C09
 /-! line-protocol front end of the C09 model
 
-`C09 (run cont sub (op…) (probeEnt…) (probeEv…) (probeSvc…))` with `cont` = 0|1, `sub` = legacy|new, ops
-`(define ctx name ((var…)…) (ev…) (svc…) su sd)` (`var` = `(comp…)`, in the iteration order observed on the
+`C09 (run cont sub (op…) (probeEnt…) (probeEv…) (probeSvc…) (probeTopic…) (probeHook…))` with `cont` = 0|1,
+`sub` = legacy|new, ops `(define ctx name ((var…)…) (ev…) (topic…) (hook…) (svc…) su sd)` (`var` = `(comp…)`, in the iteration order observed on the
 implementation), `(del ctx name)`, `(rebind ctx dst src)`, `(put slot ctx name)`, `(drop slot)`, `(unloadctx ctx)`,
 `(unloadall)`.
 
 answer: one block per op, joined by ` | `:
-`st=(ent:n …) ev=(ty:n …) bus=(ty:n …) svc=(name:count …) own=(name:ctx …) log=(kind:id …) runs=(probe:id,id …)`
+`st=(ent:n …) ev=(ty:n …) bus=(ty:n …) mq=(topic:n …) mqs=(topic:n …) wh=(id:n …) whs=(id:n …) svc=(name:count …)
+own=(name:ctx …) log=(kind:id …) runs=(probe:id,id …)`  (`mq`/`wh` = `Mqtt.notify` / `Webhook.notify` queues per key,
+`mqs`/`whs` = live `mqtt.async_subscribe` subscriptions / Home Assistant webhook registrations per key)
 `runs` is the SPEC's answer: which generations an occurrence of each probe must run (the active ones that declare it).
 -/
 namespace PsModel.C09
@@ -18,15 +20,17 @@ open PsModel
 def strs? (x : Sexp) : Option (List String) := Sexp.listOf? Sexp.str? x
 
 def op? : Sexp → Option Op
-  | .list [.atom "define", c, n, sts, evs, svcs, su, sd] => do
+  | .list [.atom "define", c, n, sts, evs, mqs, whs, svcs, su, sd] => do
     let ctx ← c.str?
     let name ← n.str?
     let states ← Sexp.listOf? (Sexp.listOf? strs?) sts
     let events ← strs? evs
+    let mqtts ← strs? mqs
+    let hooks ← strs? whs
     let services ← strs? svcs
     let a ← su.bool?
     let b ← sd.bool?
-    pure (.define ctx name states events services a b)
+    pure (.define ctx name states events mqtts hooks services a b)
   | .list [.atom "del", c, n] => do pure (.del (← c.str?) (← n.str?))
   | .list [.atom "rebind", c, d, s] => do pure (.rebind (← c.str?) (← d.str?) (← s.str?))
   | .list [.atom "put", k, c, n] => do pure (.put (← k.nat?) (← c.str?) (← n.str?))
@@ -52,38 +56,52 @@ def runsState (sub : Sub) (w : World) (e : Ent) : List Nat :=
 def runsEvent (w : World) (ty : String) : List Nat :=
   (w.started.filter (fun g => g.events.contains ty)).map (·.id)
 
+def runsMqtt (w : World) (t : String) : List Nat :=
+  (w.started.filter (fun g => g.mqtts.contains t)).map (·.id)
+
+def runsHook (w : World) (h : String) : List Nat :=
+  (w.started.filter (fun g => g.hooks.contains h)).map (·.id)
+
 def natsStr (l : List Nat) : String := ",".intercalate (l.map toString)
 
 def runsSvc (w : World) (n : String) : List Nat :=
   (w.started.filter (fun g => g.services.contains n)).map (·.id)
 
-def showWorld (sub : Sub) (w : World) (logFrom : Nat) (pe : List Ent) (pv ps : List String) : String :=
+def showWorld (sub : Sub) (w : World) (logFrom : Nat) (pe : List Ent) (pv ps pm pw : List String) : String :=
   let st := (w.st.filter (fun kv => !kv.2.isEmpty)).map (fun kv => s!"{".".intercalate kv.1}:{kv.2.length}")
   let ev := (w.ev.tbl.filter (fun kv => !kv.2.isEmpty)).map (fun kv => s!"{".".intercalate kv.1}:{kv.2.length}")
   let bus := (w.ev.bus.filter (fun kv => kv.2 != 0)).map (fun kv => s!"{kv.1}:{kv.2}")
+  let mq := (w.mq.tbl.filter (fun kv => !kv.2.isEmpty)).map (fun kv => s!"{".".intercalate kv.1}:{kv.2.length}")
+  let mqs := (w.mq.bus.filter (fun kv => kv.2 != 0)).map (fun kv => s!"{kv.1}:{kv.2}")
+  let wh := (w.wh.tbl.filter (fun kv => !kv.2.isEmpty)).map (fun kv => s!"{".".intercalate kv.1}:{kv.2.length}")
+  let whs := (w.wh.bus.filter (fun kv => kv.2 != 0)).map (fun kv => s!"{kv.1}:{kv.2}")
   let svc := (w.svc.filter (fun kv => kv.2 != 0)).map (fun kv => s!"{kv.1}:{kv.2}")
   let own := w.owner.map (fun kv => s!"{kv.1}:{kv.2}")
   let log := (w.log.drop logFrom).map (fun kv => s!"{kv.1}:{kv.2}")
   let runs := pe.map (fun e => s!"{".".intercalate e}:{natsStr (runsState sub w e)}") ++
               pv.map (fun ty => s!"{ty}:{natsStr (runsEvent w ty)}") ++
-              ps.map (fun n => s!"{n}:{natsStr (runsSvc w n)}")
-  s!"st={join st} ev={join ev} bus={join bus} svc={join svc} own={join own} " ++
+              ps.map (fun n => s!"{n}:{natsStr (runsSvc w n)}") ++
+              pm.map (fun t => s!"{t}:{natsStr (runsMqtt w t)}") ++
+              pw.map (fun h => s!"{h}:{natsStr (runsHook w h)}")
+  s!"st={join st} ev={join ev} bus={join bus} mq={join mq} mqs={join mqs} wh={join wh} whs={join whs} " ++
+    s!"svc={join svc} own={join own} " ++
     s!"log={join log} runs=({" ".intercalate runs})"
 
-def runOps (cont : Bool) (sub : Sub) (pe : List Ent) (pv ps : List String) : World → List Op → List String → List String
+def runOps (cont : Bool) (sub : Sub) (pe : List Ent) (pv ps pm pw : List String) :
+    World → List Op → List String → List String
   | _, [], acc => acc.reverse
   | w, op :: rest, acc =>
     let w' := step cont sub w op
-    runOps cont sub pe pv ps w' rest (showWorld sub w' w.log.length pe pv ps :: acc)
+    runOps cont sub pe pv ps pm pw w' rest (showWorld sub w' w.log.length pe pv ps pm pw :: acc)
 
 def handle (x : Sexp) : String :=
   match x with
-  | .list [.atom "run", c, .atom s, .list ops, pes, pvs, pss] =>
+  | .list [.atom "run", c, .atom s, .list ops, pes, pvs, pss, pms, pws] =>
     match c.bool?, (match s with | "legacy" => some Sub.legacy | "new" => some Sub.new | _ => none),
-          Sexp.mapM? op? ops, Sexp.listOf? strs? pes, strs? pvs, strs? pss with
-    | some cont, some sub, some os, some pe, some pv, some ps =>
-      " | ".intercalate (runOps cont sub pe pv ps emptyWorld os [])
-    | _, _, _, _, _, _ => "err parse"
+          Sexp.mapM? op? ops, Sexp.listOf? strs? pes, strs? pvs, strs? pss, strs? pms, strs? pws with
+    | some cont, some sub, some os, some pe, some pv, some ps, some pm, some pw =>
+      " | ".intercalate (runOps cont sub pe pv ps pm pw emptyWorld os [])
+    | _, _, _, _, _, _, _, _ => "err parse"
   | _ => "err bad-command"
 
 end PsModel.C09
